@@ -65,7 +65,7 @@ Definition leak_of (c : cfg) (st : astate) (nx : N) (o : op) : list N :=
           end
       | None => []
       end
-  | OSplice _ v sb eb pat f _ n _ _ =>
+  | OSplice _ v sb eb pat f _ n _ cl =>
       (* a leaked splice: as a leaked drain, and the replacement values; a splice whose drop is refused
          (result too long): the rest of the range and the tail behind it *)
       match get_a v st with
@@ -79,7 +79,7 @@ Definition leak_of (c : cfg) (st : astate) (nx : N) (o : op) : list N :=
                   match f with
                   | FinForget => hidden ++ next_ids c nx (N.to_nat n)
                   | FinDrop =>
-                      let new_len := N.of_nat (N.to_nat s) + n + N.of_nat (length xs - N.to_nat e) in
+                      let new_len := N.of_nat (N.to_nat s) + cl + N.of_nat (length xs - N.to_nat e) in
                       if (usize_max <? new_len)
                          || (match acap c (a_bk a) with Some cap => cap <? new_len | None => false end)
                       then hidden else []
@@ -563,8 +563,8 @@ Lemma splice_own st nx v sb eb pat f rk n wa cl r D L :
     (vis (s_st r) ++ (D ++ drops (s_evs r)) ++ (L ++ leak_of c st nx (OSplice Erased v sb eb pat f rk n wa cl))).
 Proof.
   intros Hnx Hr0 Hinv.
-  destruct (sp_splice_inv _ _ _ _ _ _ _ _ _ _ _ _ _ Hr0) as (_ & _ & _ & Hr). clear Hr0.
-  unfold sp_splice in Hr. rewrite N.eqb_refl in Hr. cbn [negb] in Hr. cbn [leak_of].
+  destruct (sp_splice_inv _ _ _ _ _ _ _ _ _ _ _ _ _ Hr0) as (_ & _ & Hr). clear Hr0.
+  unfold sp_splice in Hr. cbn [leak_of].
   destruct (get_a v st) as [a|] eqn:Hg; [|discriminate]. cbv zeta in Hr.
   set (xs := a_xs a) in *.
   set (ts := next_ids c nx (N.to_nat n)) in *.
@@ -589,16 +589,18 @@ Proof.
       rewrite (skipn_split_range xs s e Hse) at 1. reflexivity. }
     pose proof (vis_set_any st v (Some (with_xs a (firstn s xs)))) as H1. cbn [slot_xs with_xs a_xs] in H1.
     destruct f.
-    + destruct (usize_max <? N.of_nat s + n + N.of_nat (length xs - e)) eqn:Eov.
+    + destruct (usize_max <? N.of_nat s + cl + N.of_nat (length xs - e)) eqn:Eov.
       * injection Hr as <-. cbn [panic_res s_nx s_st s_evs orb]. rewrite Hcr.
         rewrite drops_app, drops_yielded, Hdg, drops_map. perm_count.
-      * destruct (match acap c (a_bk a) with Some cap => cap <? N.of_nat s + n + N.of_nat (length xs - e) | None => false end) eqn:Ecap.
+      * destruct (match acap c (a_bk a) with Some cap => cap <? N.of_nat s + cl + N.of_nat (length xs - e) | None => false end) eqn:Ecap.
         -- injection Hr as <-. cbn [panic_res s_nx s_st s_evs orb]. rewrite Hcr.
            rewrite drops_app, drops_yielded, Hdg, drops_map. perm_count.
         -- injection Hr as <-. cbn [ok_res s_nx s_st s_evs orb]. rewrite Hcr.
-           pose proof (vis_set_any st v (Some (with_xs a (VecSpec.sp_splice s e ts xs)))) as H2.
+           set (wr := Nat.min (N.to_nat cl) (N.to_nat n)) in *.
+           pose proof (vis_set_any st v (Some (with_xs a (VecSpec.sp_splice s e (firstn wr ts) xs)))) as H2.
            cbn [slot_xs with_xs a_xs] in H2. unfold VecSpec.sp_splice in *.
-           rewrite !drops_app, drops_yielded, Hdg, drops_map, drops_nexts. perm_count.
+           assert (Hts : Permutation ts (firstn wr ts ++ skipn wr ts)) by (rewrite firstn_skipn; reflexivity).
+           rewrite !drops_app, drops_yielded, Hdg, !drops_map, drops_nexts. perm_count.
     + injection Hr as <-. cbn [ok_res s_nx s_st s_evs]. rewrite Hcr. rewrite drops_yielded. perm_count.
   - injection Hr as <-. cbn [panic_res s_nx s_st s_evs]. rewrite Hcr, Hdg, drops_map.
     destruct f; perm_count.
